@@ -91,6 +91,18 @@ Theorem C06_drop_adds_no_task : forall fuel cid H c t,
   EvictHost.tasks_of (gcmd c (drop_cmd fuel cid H)) t -> EvictHost.tasks_of (gcmd c H) t.
 Proof. intros fuel cid H c t. apply (DropFuel.Rna_drop_cmd fuel cid H c t). Qed.
 
+(* Containment at the level of tasks: when the executor disposes of a cancelled (aborted, evicted or completed) task,
+   every OTHER task of the same command is left exactly as it was - the future stored in its slot is untouched - and
+   every other command's task table is either untouched or emptied entirely (the commands the cancelled future
+   hosted, which are dropped with it).  For every heap (Rt/TaskRelease.v). *)
+From Crux Require Rt.TaskRelease.
+Theorem C06_cancelled_task_leaves_its_siblings_untouched : forall cid s t H,
+  (forall s', s' <> s -> slab_get s' (gcmd cid (finish_task cid s t H)) = slab_get s' (gcmd cid H) \/
+                         c_ent (gcmd cid (finish_task cid s t H)) = []) /\
+  (forall c', c' <> cid -> c_ent (gcmd c' (finish_task cid s t H)) = c_ent (gcmd c' H) \/
+                           c_ent (gcmd c' (finish_task cid s t H)) = []).
+Proof. exact TaskRelease.finish_task_contained. Qed.
+
 (* The trace predicate that the check evaluates on the implementation holds of EVERY trace of the
    model: for every command, every schedule (late and repeated resolutions, drops, further aborts, tasks
    spawned onto the aborted command, any number of inspections) and every positive fuel, once the
